@@ -176,6 +176,10 @@ func (ft *fnTrans) run() {
 	}
 	ft.entry = Heap{m: map[string]string{}, epoch: 0}
 	ft.top0 = vc.get(ft.entry, compTop)
+	// ghost event components exist from the start so that heap-wide havocs can preserve them
+	for _, name := range sortedKeys(vc.P.cs.Events) {
+		vc.evComps(name)
+	}
 	// parameters
 	for _, p := range fn.Params {
 		n := q("p:" + p.Name())
@@ -693,7 +697,7 @@ func evalModItem(vc *VC, env *Env, m Clause) []modItem {
 
 // frameCheck: a write to comp at ref must be allowed by the function's modifies clause or hit a fresh object.
 func (ft *fnTrans) frameCheck(comp, ref string, fresh bool) {
-	if fresh || strings.HasPrefix(comp, "$") {
+	if fresh || strings.HasPrefix(comp, "$") || ft.fc.Havocs {
 		return
 	}
 	if strings.HasPrefix(comp, "G:") {
@@ -1010,7 +1014,16 @@ func (ft *fnTrans) loopHead(li *loopInfo, b *ssa.BasicBlock, h *Heap, entryPreds
 	topBefore := vc.get(*h, compTop)
 	if li.all {
 		pre := h.clone()
+		savedEv := map[string]string{}
+		for c := range vc.comps {
+			if strings.HasPrefix(c, "$ev:") && !li.writes[c] {
+				savedEv[c] = vc.get(*h, c)
+			}
+		}
 		vc.havocAll(h)
+		for c, t := range savedEv {
+			h.m[c] = t
+		}
 		// locals allocated before the loop and not written inside it keep their contents
 		for v, r := range ft.vals {
 			a, ok := v.(*ssa.Alloc)
